@@ -18,7 +18,7 @@ RULE = ('Two-endpoint histories as in C01 with user terminate() / close() calls 
         'exactly one non-success send_bundle_finished; both sockets closed and both connection_closed emitted at '
         'quiescence (bounded-step liveness).  (agent) one real tcpcl.agent.Agent with 1-4 contacts, each to its own '
         'scripted peer and each in one of the states connecting / contact headers exchanged / established / own transfer '
-        'in progress / already terminating, active or passive, gets shutdown() or stop(); afterwards every peer cooperates '
+        'in progress / already terminating / own transfer that the peer will refuse (before, or only after, its SESS_TERM reply), active or passive, gets shutdown() or stop(); afterwards every peer cooperates '
         'fully (handshake, ACKs, SESS_TERM reply, closes only after the endpoint).  All combinations of up to 2 (quick) / 3 '
         '(thorough) contacts are enumerated.  Oracle: after stop() every contact is closed at once; after shutdown() '
         'every contact ends closed and the agent stops, a contact that was in a session wrote exactly one SESS_TERM and '
@@ -93,6 +93,7 @@ def enumerate_cases(tier):
 def pinned_cases():
     yield 'agent-shutdown-mixed', {'kind': 'agent', 'action': 'shutdown',
                                    'contacts': [['ending', False], ['negotiating', True], ['transfer', False]]}
+    yield 'agent-shutdown-refused-after-term-reply', {'kind': 'agent', 'action': 'shutdown', 'contacts': [['refused-late', False]]}
     yield 'agent-stop-three', {'kind': 'agent', 'action': 'stop',
                                'contacts': [['established', False], ['established', True], ['established', False]]}
     cfg = {'a': dict(seg_init=3, mru=7, keepalive=0, idle=0), 'b': dict(seg_init=2, mru=2, keepalive=0, idle=0),
@@ -319,7 +320,7 @@ def execute_agent(case):
                     out.fail('shutdown-aborts-peer-transfer', 'contact %d: the peer had started a transfer (SESS_INIT and its first segment on '
                              'their way) when shutdown() was called; it never completed: receive signals %s, state at shutdown %s (%s)'
                              % (con.index, fin, 'session-negotiating', desc))
-            if con.state == 'refused' and not hasattr(con.own_id, 'exc') and con.index not in case.get('hang', ()):
+            if con.state in aw.REFUSING and not hasattr(con.own_id, 'exc') and con.index not in case.get('hang', ()):
                 fin = [e for e in dbus_signals(con.hdl, 'send_bundle_finished') if e['args'][0] == str(con.own_id)]
                 if len(fin) != 1 or fin[0]['args'][2] == 'success':
                     out.fail('shutdown-refused-transfer-report', 'contact %d: the peer refused the completely sent bundle after shutdown(); '
